@@ -447,28 +447,43 @@ def check_coverage(ctx):
             "RemoveAnimationFilter is applied to the body", "the LCD filter no longer removes animation steps from the body subtree")
   ctx.check(on_region, "COVER", f"{f.qualname}|animations removed from every region", ctx.where(f.module, f.node),
             "RemoveAnimationFilter is applied to every region", "the LCD filter no longer removes animation steps from every region")
-  for q in ("ttconv.filters.remove_animations:RemoveAnimationFilter.process_element",
-            "ttconv.filters.supported_style_properties:SupportedStylePropertiesFilter.process_element"):
+  # both element filters, interpreted on a sample tree (whatever their control structure: recursion, explicit stack ...):
+  # called with the default arguments they leave no animation step / no unsupported style on any element of the subtree
+  from ..consteval import NotConst as _NC, Raised as _R
+  from ..rules.minieval import MiniEval, Node
+
+  def sample():
+    def mk(kind, name, kids=()):
+      return Node(kind, name, list(kids), styles={"A": 1, "B": 2, "C": 2}, steps=[f"{name}.s1", f"{name}.s2", f"{name}.s3"])
+    return mk("Body", "body", [mk("Div", "d1", [mk("P", "p1", [mk("Span", "s1", [mk("Span", "s2")]), mk("Br", "br1")]), mk("P", "p2")]), mk("Div", "d2")])
+  methods = {
+    "iter_styles": lambda n_: list(n_.fields["styles"]),
+    "get_style": lambda n_, p_: n_.fields["styles"].get(p_),
+    "has_style": lambda n_, p_: p_ in n_.fields["styles"],
+    "set_style": lambda n_, p_, v_: n_.fields["styles"].pop(p_, None) if v_ is None else n_.fields["styles"].__setitem__(p_, v_),
+    "iter_animation_steps": lambda n_: list(n_.fields["steps"]),
+    "remove_animation_step": lambda n_, st_: n_.fields["steps"].remove(st_),
+  }
+  for q, what, left in (("ttconv.filters.remove_animations:RemoveAnimationFilter.process_element", "animation steps", lambda n_: list(n_.fields["steps"])),
+                        ("ttconv.filters.supported_style_properties:SupportedStylePropertiesFilter.process_element", "unsupported styles", lambda n_: sorted(set(n_.fields["styles"]) - {"A"}))):
     g = ix.func(q)
     ctx.unit(g.module)
-    default_true = False
-    a = g.node.args
-    names = [x.arg for x in a.args]
-    if "recursive" in names:
-      d = a.defaults[names.index("recursive") - (len(names) - len(a.defaults))] if names.index("recursive") >= len(names) - len(a.defaults) else None
-      default_true = isinstance(d, ast.Constant) and d.value is True
-    rec = False
-    for loop in own_nodes(g.node):
-      if isinstance(loop, ast.For) and unparse(loop.iter) in (g.params[1], f"list({g.params[1]})"):
-        for c in own_nodes(loop):
-          if isinstance(c, ast.Call) and isinstance(c.func, ast.Attribute) and c.func.attr == g.name and c.args and unparse(c.args[0]) == unparse(loop.target):
-            # the recursive call must not switch recursion off
-            off = any(kw.arg == "recursive" and isinstance(kw.value, ast.Constant) and kw.value.value is False for kw in c.keywords) or \
-              (len(c.args) > 1 and isinstance(c.args[1], ast.Constant) and c.args[1].value is False)
-            rec = not off
-    ctx.check(default_true and rec, "COVER", f"{q}|recurses into every child by default", ctx.where(g.module, g.node),
-              "recursive by default and the recursion visits every child",
-              f"{g.short} is no longer recursive by default over all children: descendants keep their animation steps / styles")
+    key_ = f"{q}|recurses into every child by default"
+    root = sample()
+    this = {"__record__": g.cls.name, "supported_style_properties": {"A": [], "C": [1]}, "_has_removed_animations": False}
+    try:
+      MiniEval(ix, node_methods=methods).call(g, [this, root])
+    except _R:
+      ctx.bad("COVER", key_, ctx.where(g.module, g.node), f"interpreted on a sample tree, {g.short} raises")
+      continue
+    except _NC as ex_:
+      ctx.undecide("COVER", f"{g.qualname}: not in the interpreted subset ({ex_})")
+      continue
+    rest = {n_.name: left(n_) for n_ in root.walk() if left(n_)}
+    kept_ok = all(n_.fields["styles"].get("A") == 1 for n_ in root.walk())
+    ctx.check(not rest and kept_ok, "COVER", key_, ctx.where(g.module, g.node), f"interpreted on a sample tree of 8 elements: no {what} left anywhere",
+              f"interpreted on a sample tree (body > div > p > span > span, br; ...) with its default arguments, {g.short} leaves {what} on {rest if rest else 'no element, but removes a supported style'}: "
+              f"descendants (or some of an element's own entries) keep their {what}")
 
 
 def st_in(body, st):
